@@ -1,11 +1,16 @@
 package main
 
-import . "zharness/hz"
+import (
+	"math/rand"
+	. "zharness/hz"
+)
 
 // C05 — momentums come only from the elected pillar; the schedule is deterministic.
-//   election  : random pillar/delegation configurations through the real SelectProducers
-//   momentum  : valid next momentums, every single-field mutation, other signers, through Supervisor.ApplyMomentum
-//   schedule  : GetMomentumProducer for every slot on a live / reorganised node vs cold and restarted nodes
+//
+//	election  : random pillar/delegation configurations through the real SelectProducers
+//	momentum  : valid next momentums, every single-field mutation, other signers, through Supervisor.ApplyMomentum
+//	schedule  : GetMomentumProducer for every slot on a live / reorganised node vs cold and restarted nodes
 func main() {
-	Main(map[string]Runner{"election": runElection, "momentum": runMomentum, "schedule": runSchedule})
+	Main(map[string]Runner{"election": runElection, "momentum": runMomentum, "schedule": runSchedule, "concurrent": runConcurrent,
+		"concurrent-race": func(rng *rand.Rand, n int, out *Out, _ []string) { raceRun(rng, n, out) }, "produce": runProduce})
 }
